@@ -1,7 +1,7 @@
 """C04 — seqhash invariance."""
 from common import *
 
-from seqfam import structured
+from seqfam import structured, long_tie
 
 RULE = ("pairs of Hash calls on related inputs, the second input computed by the Lean side (rotl k s / revComp s / recase / U->T spelling). "
         "Exhaustive families: rot = every word of ACGT^<=L x EVERY rotation offset x both strandedness values (DNA); strand = every word of "
@@ -12,7 +12,12 @@ RULE = ("pairs of Hash calls on related inputs, the second input computed by the
         "property states); quick: L=5, L15=2, LR=3, LC=3, LN=4. Then random IUPAC / RNA (with U) / Z / protein (both cases) strings, log-uniform "
         "length to MAXLEN (3000 quick, 10^5 thorough), random offsets and masks, and STRUCTURED long inputs (gen/seqfam.py: reverse-palindromes, "
         "near-palindromes differing near the middle / an end, odd length with (non-)self-complementary centre, periodic and near-periodic words, "
-        "letterwise self-complementary ambiguity words, rotations of these) at lengths 10..5000 for the strand and rotation clauses. "
+        "letterwise self-complementary ambiguity words, rotations of these) at lengths 10..5000 for the strand and rotation clauses, and LONG "
+        "tie families (seqfam.long_tie: the two strands / the two best rotations agree on 4096, 8192, 16384, 40000 letters (quick) and also on "
+        "65536, 131072, 300000, 499000 letters (thorough) and differ only after them; powers of long words; near-periodic words with one late "
+        "change) at lengths to 10^5 (quick) / 10^6 (thorough). EXHAUSTIVE (thorough) refers to the rotation and strand clauses over ACGT^<=9 and "
+        "IUPAC15^<=4 under type DNA (the families the property names); the case clause is swept to length 4 and the RNA/DNA clause to length 5, "
+        "RNA rotation/strand to ACGU^<=6 with one random flag per case, PROTEIN is sampled only. "
         "non-trivial = the two inputs differ (or an RNA/DNA case) and length >= 2; distinct by case text")
 EXHAUSTIVE = {"quick": False, "thorough": True}
 TRUSTED_BASE = ["Base/Blake3.lean instantiates the digest parameter for the correspondence only; it is compared with the vendored Go BLAKE3 "
@@ -26,13 +31,13 @@ ASSUMPTIONS = ["the theorems hold for every digest function; nothing about BLAKE
                "upper-casing is Go's strings.ToUpper",
                "strand clause: the normalised sequence is over the 15 IUPAC codes (U only under RNA) - the property's own quantifier, hypothesis "
                "Iupac15 (norm ty s) of hash_strand; outside it (U under DNA, Z) strand invariance really fails in the code (same root cause as known "
-               "finding C05-dna-u-strand), those cases are sent for correspondence but not judged"]
+               "finding C05-dna-u-strand); a few such cases (random words with U under DNA / Z) are sent for correspondence but not judged"]
 PARTIAL = []
 
 PROT = "ACDEFGHIKLMNPQRSTVWYUO*BXZ"
 FLAGS = [("true", "true"), ("true", "false"), ("false", "true"), ("false", "false")]
 
-def cases(seed, tier):
+def _short_cases(seed, tier):
     r = rng(seed, "C04")
     quick = tier == "quick"
     L, L15, LR, LC, LN = (5, 2, 3, 3, 4) if quick else (9, 4, 6, 4, 5)
@@ -123,9 +128,49 @@ def cases(seed, tier):
         yield ["strand", w, ty, "false"]
         yield ["strand", w, ty, "true"]
         yield ["rot", w, ty, r.choice(["true", "false"]), str(r.randrange(0, len(w) + 1))]
+    # --- strand cases OUTSIDE the clause's quantifier (U under DNA, Z): sent for correspondence only (judge = skip); the partner
+    # contains A for U and the zero rune for Z
+    for _ in range(12 if quick else 120):
+        w = randcase(r, randword(r, "ACGT" + r.choice(["U", "Z", "UZ"]), loglen(r, 1, 300)))
+        yield ["strand", w, r.choice(["DNA", "DNA", "RNA"]), r.choice(["true", "false"])]
     # rejected inputs (outside the property's quantifier: not judged)
     for w, ty in [("ACGX", "DNA"), ("ACGT", "dna"), ("MKV", "PROTEIN")]:
         yield ["strand", w, ty, "true"]
+
+def _long_cases(seed, tier):
+    """LONG structured inputs: the two strands / the two best rotations agree on `tie` letters (4096, 8192, 65536, ...) and differ
+    only after them; long periods; near-periodic with one late change.  Lengths to 10^5 (quick) / 10^6 (thorough)."""
+    r = rng(seed, "C04-long")
+    quick = tier == "quick"
+    ties = [4096, 8192, 16384, 40000] if quick else [4096, 8192, 16384, 65536, 65536, 131072, 300000, 499000]
+    per = 4 if quick else 6
+    for tie in ties:
+        for _ in range(per):
+            t2 = tie + r.choice([0, 0, 1, -1, 7])
+            fam, w, k = long_tie(r, t2, r.choice(["ACGT", "ACGT", "ACGTRYSWKMBDHVN"]))
+            ty = r.choice(["DNA", "DNA", "RNA"])
+            if ty == "RNA" and r.random() < 0.5:
+                w = w.replace("T", "U")
+            if r.random() < 0.2:
+                w = w.lower()
+            yield ["strand", w, ty, "false"]
+            yield ["strand", w, ty, "true"]
+            yield ["rot", w, ty, r.choice(["true", "false"]), str(k)]
+
+def cases(seed, tier):
+    """the long cases are spread through the stream (the check cuts the stream into contiguous shards run in parallel)"""
+    longs = _long_cases(seed, tier)
+    step = 300 if tier == "quick" else 50000
+    n = 0
+    for c in _short_cases(seed, tier):
+        yield c
+        n += 1
+        if n % step == 0:
+            nxt = next(longs, None)
+            if nxt is not None:
+                yield nxt
+    for c in longs:
+        yield c
 
 TECHNIQUE = "Lean 4 proof (rotation / strand / case / RNA-DNA laws of the hash model for every digest function); differential correspondence with a Lean BLAKE3"
 LEVEL_TEXT = ("The four invariance clauses are theorems about the hash model for every digest function, every accepted sequence of any "
